@@ -3,7 +3,7 @@
     history and the answers it gave to the same single query from fresh caches
     (cache reset in the harness process, and for a sample a fresh OS process). *)
 From Coq Require Import List ZArith NArith Bool.
-From C33 Require Export Lib.Harness C19.Model C19.Spec.
+From C33 Require Export Lib.Harness C19.Model C19.Spec C19.ModelTx C19.SpecTx C19.CheckTx.
 Import ListNotations.
 Open Scope Z_scope.
 
@@ -19,7 +19,11 @@ Inductive cfgI := Cfg (drv : list drvI) (val : list valI) (fmulti fb58 ffmt : Z)
                       (raw : list rawI) (cry : list cryI) (sigs : list sigI).
 Inductive obsI := Ob (o : op) (hist : ans) (fresh : list ans).
 (** g: 0 = unrestricted, 1 = validity-guarded ([vguard_b] holds), 2 = exactly guarded ([guard_b] holds) *)
-Inductive case := Hist (g : N) (c : cfgI) (h : list obsI).
+Inductive case :=
+| Hist (g : N) (c : cfgI) (h : list obsI)
+(** a history of TransactionCache calls (CheckTx.v); g: 0 = unrestricted, 2 = [tguard_b] holds,
+    3 = additionally no memo field is read twice *)
+| TcHist (g : N) (c : tcfgI) (h : list tobsI).
 
 Definition eth_id : N := 2%N.
 Definition default_cap : N := 10240%N.
@@ -212,4 +216,5 @@ Definition check_case (x : case) : verdict :=
            | Some k => (m, false, if (2 <=? g)%N then 0%N else k)
            | None => (m, true, 0%N)
            end
+  | TcHist g ci h => check_tc g ci h
   end.
